@@ -150,6 +150,7 @@ def one_step(mod, kind, nd, backend, p, loop, decisions):
         if lab == scan_h:
             itp = env[info["iter"]]
             if n == 1:
+                st["init_iter"] = (it_.P(it_.load(itp, 8)), it_.P(it_.load(Ptr(itp.r, itp.o + 8), 8)))
                 if loop == "scan":
                     it_.store(itp, Poly.const(0), 8); it_.store(Ptr(itp.r, itp.o + 8), Poly.const(p + 1), 8)
                 else:   # skip the scan: empty iterator
@@ -170,6 +171,7 @@ def one_step(mod, kind, nd, backend, p, loop, decisions):
             if kind == "db": it_.store(env["%i"], Poly.const(p), 8)
             else:
                 itp = env[info["iter"]]
+                st["init_iter"] = (it_.P(it_.load(itp, 8)), it_.P(it_.load(Ptr(itp.r, itp.o + 8), 8)))
                 it_.store(itp, Poly.const(0), 8); it_.store(Ptr(itp.r, itp.o + 8), Poly.const(0 if loop == "exit" else p + 1), 8)
         else:
             if kind == "db": pos2 = it_.P(it_.load(env["%i"], 8))
@@ -210,6 +212,10 @@ def induction_harness(rep, cfg, modpath, kind, nd, backend, positions, label):
                 ok0 = st["init_acc"] is not None and st["init_acc"].eq(G())
                 rec["goals"].append(dict(goal="before the loop the accumulator is the identity", verdict="unsat" if ok0 else "sat", solver_s=0.0, cases=1, solver_calls=0, kind="structural"))
                 if not ok0: bad("accumulator is not the identity before the loop")
+                ii = st.get("init_iter")
+                oki = ii is not None and ii[0].is_const() and ii[1].is_const() and (ii[0].cval(), ii[1].cval()) == (0, 256)
+                rec["goals"].append(dict(goal="the %s loop runs over the positions 255 down to 0 (iterator (0..256).rev() at its first arrival)" % ("scan" if kind == "db" else "main"), verdict="unsat" if oki else "sat", solver_s=0.0, cases=1, solver_calls=0, kind="structural"))
+                if not oki: bad("the %s loop does not start at position 255: iterator state %r" % ("scan" if kind == "db" else "main", ii))
             how, pos2, acc2 = st["post"]
             exp = G.base("R").scale(2)
             for b, d in digits(p): exp = exp + G.base(b).scale(d)
@@ -260,6 +266,16 @@ def induction_harness(rep, cfg, modpath, kind, nd, backend, positions, label):
             okx = st["post"] is not None and st["post"][0] == "return" and st["post"][2].eq(G.base("R"))
             rec["goals"].append(dict(goal="when the positions are exhausted the function returns the accumulator unchanged", verdict="unsat" if okx else "sat", solver_s=0.0, cases=1, solver_calls=0, kind="polynomial identity mod p"))
             if not okx: bad("exit of the loop does not return the accumulator: %r" % (st["post"],))
+        if status == "violation":
+            # replay on the natively built code: scalars with high / structured bit patterns against sum s_i P_i by the specification's arithmetic
+            from checks.c04 import native_replay
+            rk = {"db": "vartime_double", "straus": "vartime_multiscalar", "pre": "precomputed"}[kind]
+            tags = {"db": ["a", "b"], "straus": ["s%d" % i for i in range(nd)], "pre": ["t0"] + ["u%d" % i for i in range(nd)]}[kind]
+            ok, det = native_replay(cfg, rk, {}, {(t, "naf5"): dict(vars=[], weights=[]) for t in tags}, max(len(tags), 2))
+            rec["replay"] = det
+            if ok is True: rec["reproduced"] = True
+            elif ok is False: status = "inconclusive"; why = "loop-level counterexample (%s) not reproduced natively: %s" % (why[:200], det)
+            else: rec["reproduced"] = None; why += " | native replay unavailable: " + str(det)
         rec["goals"].append(dict(goal="%d loop positions: accumulator' == 2R + sum_k d_{k,p} P_k and position' == p-1%s (%d loop-body executions, %d solver queries)" % (len(positions), "; scan loop skips only zero digits" if kind == "db" else "", nsteps, nq),
                                  verdict="unsat" if status == "ok" else ("sat" if status == "violation" else "unknown"), solver_s=0.0, cases=nsteps, solver_calls=max(nq, 1), kind="QF_LIA summary"))
         rec["status"] = status
